@@ -30,6 +30,7 @@ type c18Case struct {
 
 func genC18(t *rapid.T) c18Case {
 	c := c18Case{World: cfggen.GenWorld(t)}
+	drawExtraKeys(t, &c.World.Cfg)
 	c.Scope = pickServingScope(t, c.World)
 	c.Key = "K3y" + rapid.StringMatching(`[A-Za-z0-9]{16}`).Draw(t, "key_token")
 	c.Scripts, c.Order = genAuthHistory(t, c.World, c.Scope, 3)
